@@ -127,7 +127,13 @@ def unconnectedFilterMap (as : List Int → List Nat) (m : Mesh) : List Nat :=
 
 /-! ### `_get_cell_corners_sorting_index_map` -/
 
-def sortNat (l : List Nat) : List Nat := l.mergeSort fun a b => decide (a ≤ b)
+def insertNat (x : Nat) : List Nat → List Nat
+  | [] => [x]
+  | y :: t => if x ≤ y then x :: y :: t else y :: insertNat x t
+
+/-- `sorted(corners)` (insertion sort: a handful of corners; structurally recursive so that the
+    kernel can evaluate it in the witnesses) -/
+def sortNat (l : List Nat) : List Nat := l.foldr insertNat []
 
 /-- CPython ≥ 3.8 `tuplehash` (xxHash-style, 64-bit) over small non-negative ints (`hash(i) = i`),
     returned as the signed `Py_hash_t` that ends up in the int64 array handed to `argsort` -/
